@@ -247,7 +247,8 @@ theorem locate_entry_facts {fs : FS} {base : List Name} {p : List Nat} (hr : Rel
     (h : locate fs base p = .ok (.entry d n)) :
     walk fs maxLinks base (initOf p) = .ok d ∧ (∃ t, get fs.root d = some t ∧ t.isDir = true) ∧
     ¬ n.length > nameMax ∧ compsOf p = initOf p ++ [n] := by
-  unfold locate at h
+  replace h := (locate_ok h).1
+  unfold locate0 at h
   simp only [hr.ne_nil, if_false, hr.notAbs, Bool.false_eq_true] at h
   cases hl : (compsOf p).getLast? with
   | none => exact absurd (List.getLast?_eq_none_iff.mp hl) hr.ne
@@ -294,7 +295,9 @@ theorem lstat_after_put {c : Ctx} {name : List Nat} {pr : Proc} (hS : Sem c name
   have hw' : walk (putAt pr.fs (c.T ++ initOf name) n (.file i)) maxLinks c.T (initOf name)
       = .ok (c.T ++ initOf name) :=
     walk_chain _ maxLinks (initOf name) c.T hndi hlenok ⟨_, hD', by simpa using hDd⟩
-  unfold lookupNoFollow locate
+  unfold lookupNoFollow
+  rw [locate_of_lt (locate_ok hl).2]
+  unfold locate0
   have hlast : (compsOf name).getLast? = some n := by rw [hsplit]; simp
   have hmem : n ∈ compsOf name := by rw [hsplit]; simp
   have hnd := hr.noDots n hmem
@@ -361,7 +364,8 @@ theorem link_post (c : Ctx) (e : Entry) (name lc : List Nat) (hn : NameOK name) 
                   intro x hx; rw [← hcomps] at hx; simpa using hx
                 have hn' := this n (by simp)
                 -- then `locate` would have taken the "." branch
-                unfold locate at hl
+                replace hl := (locate_ok hl).1
+                unfold locate0 at hl
                 simp only [show ([DOT] : List Nat) ≠ [] by decide, if_false, e1, List.getLast?_singleton, true_or,
                   if_true] at hl
                 split at hl
@@ -827,7 +831,11 @@ def CurOK (c : Ctx) (w : Writer) (pr : Proc) : Prop :=
 /-- Invariant of the writer between API calls. -/
 def G (c : Ctx) (w : Writer) (pr : Proc) : Prop := Sem c [] pr ∧ CurOK c w pr
 
-def EntryOK (e : Entry) : Prop := (∀ x ∈ e.path, x ≠ 0) ∧ (∀ x ∈ e.link, x ≠ 0)
+/-- An entry the confinement proof covers: C strings, pathname shorter than PATH_MAX
+(`edit_deep_directories` does not come into play). -/
+def EntryOK (e : Entry) : Prop := (∀ x ∈ e.path, x ≠ 0) ∧ (∀ x ∈ e.link, x ≠ 0) ∧ e.path.length < pathMax
+
+theorem prog_pure_bind {α β} (a : α) (f : α → Prog β) : (pure a : Prog α) >>= f = f a := rfl
 
 theorem sem_dot_of_base {c : Ctx} {pr : Proc} (h : Sem c [] pr) : Sem c [DOT] pr :=
   sem_weaken h (by decide)
@@ -895,9 +903,14 @@ theorem header_spec (c : Ctx) (fl : XFlags) (hfl : SecureFlags fl) (w : Writer) 
         exact ⟨sem_of_full hg hfull, Or.inr ⟨hg, hfull⟩⟩
     · refine triple_ite (fun _ => triple_pure (fun pr hp => ⟨⟨hp.1, trivial⟩, rfl, hpf⟩)) (fun hchk => ?_)
       have hok : chk = .ok := by simpa using hchk
+      have hshort : decide (name.length ≥ pathMax) = false := by
+        have := cleanup_len_le _ _ _ he.1 hcl
+        have h2 := he.2.2
+        simp; omega
+      simp only [hshort, Bool.false_eq_true, if_false, prog_pure_bind, List.append_nil]
       refine triple_bind (Q := fun r pr' => (Sem c name pr' ∧ (CN e r.2 → Full c name pr')) ∧ PF r.2.fix)
         (triple_and_rets
-          (triple_conseq (fun pr hp => hp.2 hok) (restore_spec c fl hfl _ e name hn he.2 _) (fun _ _ h => h))
+          (triple_conseq (fun pr hp => hp.2 hok) (restore_spec c fl hfl _ e name hn he.2.1 _) (fun _ _ h => h))
           ?_)
         (fun r => ?_)
       · exact allRets_restoreEntry _ _ _ _ (nulFree_of_cleanup he.1 hcl) _ pf_nil
@@ -1122,19 +1135,5 @@ theorem extractArchive_spec (c : Ctx) (fl : XFlags) (hfl : SecureFlags fl) (es :
     · obtain ⟨s, w2⟩ := r2
       exact triple_pure (fun _ hp => hp)
   · intro pr hp; exact absurd ⟨hp.2.2.1, hp.2.2.2, hp.2.1⟩ hq
-
-/-! ### the process environment -/
-
-theorem exec_env (s : Sys) (pr : Proc) : (exec s pr).2.cwd = pr.cwd ∧ (exec s pr).2.umask = pr.umask := by
-  cases s <;> simp only [exec, doUnlink, fail] <;> (repeat' split) <;> first | exact ⟨rfl, rfl⟩ | simp
-
-theorem run_env {α} (m : Prog α) (pr : Proc) : (m.run pr).2.cwd = pr.cwd ∧ (m.run pr).2.umask = pr.umask := by
-  induction m generalizing pr with
-  | ret a => exact ⟨rfl, rfl⟩
-  | call s k ih =>
-    simp only [Prog.run]
-    have h1 := exec_env s pr
-    have h2 := ih (exec s pr).1 (exec s pr).2
-    exact ⟨h2.1.trans h1.1, h2.2.trans h1.2⟩
 
 end LA.Xtr
